@@ -37,6 +37,15 @@ class Lib:
         return 'Lib({})'.format(self.name)
 
 
+class LoopLocal:
+    """A name first bound inside a loop body, seen after the loop: it is bound
+    iff the loop ran at least once (`cond`); its value is not tracked."""
+
+    def __init__(self, name, cond):
+        self.name = name
+        self.cond = cond
+
+
 class PyCallable:
     """A callable supplied by a theory (contract of an opaque function)."""
 
@@ -729,6 +738,9 @@ class Executor:
         else:
             exits = self.branch_on(node.test, e, False, node)
         for x in exits:
+            for nm in sorted(names):
+                if nm not in x.env and nm != kname and is_for:
+                    x.env[nm] = LoopLocal(nm, kk >= 1)
             if spec.exit_assume is not None:
                 for f in spec.exit_assume(View(self, x)):
                     x.assume(f)
@@ -823,6 +835,8 @@ class Executor:
             return len(v) > 0
         if isinstance(v, PyList):
             return len(v.items) > 0
+        if isinstance(v, Opaque) and v.what.startswith('sink'):
+            return fresh('bool', 'sink_truth')
         if isinstance(v, (ObjRec, Opaque, ClassVal, Closure, Lib)):
             return True
         if isinstance(v, Arr):
@@ -842,7 +856,12 @@ class Executor:
 
     def ev_Name(self, node, st):
         if node.id in st.env:
-            return st.env[node.id]
+            v = st.env[node.id]
+            if isinstance(v, LoopLocal):
+                # NameError unless the loop that binds it ran at least once
+                self.need(st)('name_bound_' + v.name, v.cond)
+                return Opaque('sink:loop_local')
+            return v
         g = self.reg.global_name(node.id)
         if g is not None:
             return g
